@@ -39,8 +39,8 @@ PROPS = {
     },
     "C03": {
         "engine": "A+B+C", "level": "exploration",
-        "tiers": {"quick": {"batches": 16, "runs": 120, "budget_s": 50, "floor_runs": 500},
-                  "thorough": {"batches": 64, "runs": 1500, "budget_s": 550, "floor_runs": 20000}},
+        "tiers": {"quick": {"batches": 16, "runs": 70, "budget_s": 55, "floor_runs": 500},
+                  "thorough": {"batches": 64, "runs": 1200, "budget_s": 800, "floor_runs": 20000}},
         "rule": "same workloads as C02; every emitted SerialHugr document (and Package document, and the document a restarted reader node re-emits) is validated against specification/schema/hugr_schema_strict_live.json, checked for index sanity, and - for HUGRs whose links attach only to ports their operations have (all builder products; engine-A histories in in-range mode) - every in-memory link must be addressed in the document at the offset refsem predicts from the serialised op (value port = signature position, static port after the value inputs, order port after those), independently of how many ports are connected; non-trivial = >= 3 calls; distinct = distinct event-log digests", "real": ["Hugr / Package serialisation, _serialization models", "jsonschema validation against the published strict schema file", "reader node (separate interpreter) for re-emitted documents"], "stub": ["Rust reader (serialize.rs) -> oracles/wire.py + refsem.py"], "expected_probes": ["serialised_after_deletion", "serialised_after_index_reuse", "index_order_not_hierarchy_consistent", "restart_read"], "technique": "seeded build + mutation histories (deletion, index reuse, partially connected multi-output nodes with order edges), documents judged by the published strict JSON schema + index sanity + a reader-side port-addressing model; a restarted reader node re-emits and is judged too", "level_text": "What can break the wire format is history: deletions and index reuse (index sanity), and the order in which builders happened to link ports (order-edge offsets). The check reuses the C02 workloads and judges every emitted document with the published strict schema and with an independent model of the reader's addressing contract (serialize.rs), never with hugr-py's own port counters.", "level_note": "Trusted: jsonschema 4.26 (offline wheelhouse, installed into /verif/.deps), the published strict schema file, oracles/refsem.py for port addressing, oracles/wire.py. Extension documents are validated in C10's check.",
     },
     "C04": {
